@@ -325,6 +325,7 @@ static LinkedList *bufr_expand_desc( int desc, int flags, BUFR_Tables *tbls, int
             else
                {
                char errmsg[256];
+               bufr_free_descriptor( bcd ); /* not in the list yet */
                bufr_free_descriptorList( lst );
 
                if (errflg) *errflg = 1;
